@@ -26,6 +26,7 @@ RULE = ("One evaluation = one seeded execution (direct hints one way or both "
         "candidates raced in one generation. Distinct: event-log digests "
         "among non-trivial runs.")
 RULE += (' The end-to-end configuration also loses the connection silently (no end told, clock running: only the ping monitor notices).')
+RULE += (' Half of the runs of the first three configurations carry application traffic (subchannels opened, written to and closed from either side, also while no connection exists), so that a replacement connection starts with records waiting to be re-sent.')
 RULE += (' A fifth configuration (relay_race) has direct hints and a relay; after the first connection only the relay stays reachable.')
 LEVEL_TEXT = ("Seeded exploration. After every event: roles differ and the "
               "Leader is the side with the larger dilation side; each side "
@@ -287,9 +288,16 @@ def run_one(seed, tape, opts):
                          tape.choose(6, "fb"))
     started = set()
     delay = {"A": tape.choose(40, "da"), "B": tape.choose(40, "db")}
+    # half of the runs carry application traffic (subchannels opened, written
+    # to and closed from either side, also while no connection exists), so
+    # that a new connection starts with records waiting to be re-sent
+    wl = None
+    if tape.choose(2, "with_data") == 0:
+        wl = cc.Workload(w, tape, max_subs=2, max_ops=8)
+        sim.note("probe.with_application_traffic")
 
     def extra():
-        evs = []
+        evs = wl.app_events() if wl is not None else []
         for s in w.sides:
             if s.name not in started and sim.steps >= delay[s.name]:
                 evs.append(("start:" + s.name,
